@@ -376,20 +376,23 @@ SPEC = {
             'non-trivial = at least one object; distinct = distinct case text',
     'extra_trusted': ['C01: reals are compared as f32 bit patterns (exact decimal->f32 rounding in lib/vlib.py); '
                       'f32 Display/FromStr are Rust std (assumed: from_str(to_string x) = x, Display is shortest round-trip without exponent)'],
-    'partial_note': 'proved for all documents: offsets_exact (sound + complete), startxref_exact, 20-byte entries, sectioning of the '
-                    'cross-reference table and stream; proved on the property domain: per-object round trip incl. streams at the '
-                    'recorded offset, header, binary mark, get_xref_start.  NOT proved: the whole-file composition C01_full '
-                    '(cross-reference table/stream parsed back to the writer map, trailer at file level, read_entries, second cycle); '
-                    'it is covered by correspondence + direct evaluation only.  Open known finding: container nesting deeper than '
-                    'MAX_BRACKET is not reloaded (price of the stack-overflow repair 61b571d).',
+    'partial_note': 'PROVED: for all documents -- offsets_exact (sound + complete), startxref_exact, 20-byte entries, sectioning of the '
+                    'cross-reference table and stream; on the property domain -- per-object round trip incl. streams at the recorded '
+                    'offset, header, binary mark, get_xref_start, trailer, cross-reference table parse-back, and the MAIN THEOREM for the '
+                    'TABLE format: load (save_table d) = reloaded_table d (first cycle).  NOT proved: the cross-reference STREAM format '
+                    '(missing: xstream_content read back through decode_xref_plain, then the same composition) and the second cycle as '
+                    'a theorem (savable (reloaded d)); both are covered by correspondence + direct evaluation on the crate only.  '
+                    'Open known finding: container nesting deeper than MAX_BRACKET is not reloaded (price of the repair 61b571d).',
 }
 
 MANIFEST = {
-    'level_note': 'rung 1 complete (offsets_exact sound+complete, startxref_exact, entry and section shape, for ALL documents); rung 2 '
-                  'at file level partial: per-object round trip (C14 object_rt lifted to indirect objects and streams) composed with '
-                  'offsets_exact, header / binary mark / get_xref_start round trips; rung 3 (C01_full: load (save x d) = d up to '
-                  'normal form, both formats, second cycle) is stated as a Definition and NOT proved -- it is tied by byte-for-byte '
-                  'save correspondence, loader correspondence on saved and mutated files, and direct save->load->compare on the crate',
+    'level_note': 'rung 1 complete for ALL documents (offsets_exact sound+complete, startxref_exact, entry and section shape); rung 2 complete at '
+                  'file level (C14 object_rt lifted to indirect objects and streams, found at the recorded offset; header, binary mark, '
+                  'get_xref_start, trailer, cross-reference table parse-back); rung 3 PARTIAL: C01_roundtrip_table = load (save_table d) = '
+                  'reloaded_table d for every savable document outside the known class (first cycle, table format) is proved; the '
+                  'cross-reference stream format and the second cycle are stated in C01_full and NOT proved -- they are tied by '
+                  'byte-for-byte save correspondence, loader correspondence on saved and mutated files, and direct save->load->compare '
+                  '(two cycles, both formats, default and no-default-features) on the crate',
     'known_findings': ['C01-deep-nesting (open)'],
 }
 
